@@ -6,6 +6,8 @@
 package interpreter
 
 //@ safetyprop C12
+// every write of the package is inside a modifies clause: the frame obligations of all its functions carry C11
+//@ frameprop C11
 
 //@ func (*programState).pushSender
 //@   requires [nonnil] st != nil && monetary != nil
